@@ -122,6 +122,11 @@ def _solve_one(args):
         phyps += list(ante.children()) if z3.is_and(ante) else [ante]
         pgoal = pgoal.arg(1)
     base_hyps = [h for i, h in enumerate(phyps) if i not in set(derived)]
+    try:
+        if _prop_abstraction_unsat(hyps, goal):
+            return "discharged", "prop", time.time() - t0, "propositional abstraction"
+    except z3.Z3Exception:
+        pass
     eq_goal = poly and _collect_eqs(pgoal) is not None
     if eq_goal:
         ok, how = _with_alarm(60, poly_discharge, phyps, pgoal, False)
@@ -267,6 +272,34 @@ def is_nl_constraint(h):
             if _arith_nl(l) or _arith_nl(r):
                 return True
     return False
+
+
+def _prop_abstraction_unsat(hyps, goal, timeout_ms=3000):
+    """hyps /\ not goal unsatisfiable already when every theory atom is read as an opaque propositional variable
+    (sound: a propositional contradiction is a contradiction).  Catches 'the goal is literally a hypothesis / branch
+    condition' without touching arithmetic."""
+    table = {}
+
+    def ab(t):
+        if z3.is_true(t) or z3.is_false(t):
+            return t
+        if z3.is_app(t) and t.decl().kind() in (z3.Z3_OP_AND, z3.Z3_OP_OR, z3.Z3_OP_NOT, z3.Z3_OP_IMPLIES,
+                                                z3.Z3_OP_XOR):
+            return t.decl()(*[ab(c) for c in t.children()])
+        if z3.is_app(t) and t.decl().kind() in (z3.Z3_OP_EQ, z3.Z3_OP_IFF) and z3.is_bool(t.arg(0)):
+            return ab(t.arg(0)) == ab(t.arg(1))
+        if z3.is_app(t) and t.decl().kind() == z3.Z3_OP_ITE and z3.is_bool(t):
+            return z3.If(ab(t.arg(0)), ab(t.arg(1)), ab(t.arg(2)))
+        key = t.get_id()
+        if key not in table:
+            table[key] = z3.Bool("atom!%d" % len(table))
+        return table[key]
+    s_ = z3.Solver()
+    s_.set("timeout", timeout_ms)
+    for h in hyps:
+        s_.add(ab(h))
+    s_.add(z3.Not(ab(goal)))
+    return s_.check() == z3.unsat
 
 
 def _nonlinear(t):
@@ -465,7 +498,30 @@ def _ideal_membership(diffs, hyp_polys, max_hyp_eqs=80):
     goals = [g for g in goals if g != 0]
     if not goals:
         return True, "identity after substituting definitions"
-    # (2) relevance
+    # (2) relevance: first only the hypotheses that talk about the goal's own symbols, then (below) transitively
+    gsyms0 = set().union(*[g.free_symbols for g in goals])
+    direct = [q for q in polys if q.free_symbols and q.free_symbols <= gsyms0]
+    if direct and len(direct) <= max_hyp_eqs:
+        try:
+            comps0 = []
+            for q in direct:
+                fs = set(q.free_symbols)
+                merged = [c_ for c_ in comps0 if c_[0] & fs]
+                for c_ in merged:
+                    comps0.remove(c_)
+                    fs |= c_[0]
+                comps0.append((fs, [q] + [x for c_ in merged for x in c_[1]]))
+            basis0 = []
+            for fs, qs in comps0:
+                key = tuple(sorted(str(q) for q in qs))
+                if key not in _GB_CACHE:
+                    _GB_CACHE[key] = list(sympy.groebner(qs, *sorted(fs, key=lambda s_: s_.name), order="grevlex").exprs)
+                basis0 += _GB_CACHE[key]
+            gens0 = sorted(gsyms0, key=lambda s_: s_.name)
+            if all(sympy.reduced(g, basis0, *gens0, order="grevlex")[1] == 0 for g in goals):
+                return True, "groebner(%d direct hyps, %d components)" % (len(direct), len(comps0))
+        except Exception:
+            pass
     gsyms = set().union(*[g.free_symbols for g in goals])
     rel, rest = [], list(polys)
     changed = True
